@@ -271,6 +271,17 @@ def run_histories(r, rng, T, make_session, direct, req_cases, on_request=None):
                     direct.append({"law": "an earlier object can still be read", "chain": repr(ch2), "after_steps": step + 1,
                                    "error": repr(e)[:200]})
                     continue
+                if not sg and (hi < 2 or rng.random() < 0.3):
+                    # the records taken from the proxy itself and KEPT until the pass is over: each is an object of its own
+                    try:
+                        kept = list(iter(o2.data))
+                        got_kept = [[int(x) for x in v] for v in kept]
+                        if got_kept != got:
+                            direct.append({"law": "records obtained from one read are objects of their own: a later record leaves the ones "
+                                                  "obtained before unchanged", "chain": repr(ch2), "kept_records": got_kept, "rows": got})
+                    except Exception as e:  # noqa
+                        direct.append({"law": "an earlier object can still be read (records of the proxy)", "chain": repr(ch2),
+                                       "error": repr(e)[:200]})
                 want = reference(ch2)
                 if got != want:
                     direct.append({"law": "a derived object reads what a fresh client applying the same selection reads, and keeps doing so",
